@@ -63,7 +63,11 @@ func (n *Nodis) ZAddNX(key string, member string, score float64) int64 {
 func (n *Nodis) ZAddLT(key string, member string, score float64) int64 {
 	var v int64
 	_ = n.exec(func(tx *Tx) error {
-		meta := tx.writeKey(key, n.newZSet)
+		meta := tx.writeKey(key, nil)
+		if !meta.isOk() {
+			// LT / GT only ever update existing members: nothing to do, and no empty key is left behind
+			return nil
+		}
 		if meta.value.(*zset.SortedSet).ZAddLT(member, score) {
 			n.signalModifiedKey(key, meta)
 			n.notify(func() []patch.Op {
@@ -80,7 +84,11 @@ func (n *Nodis) ZAddLT(key string, member string, score float64) int64 {
 func (n *Nodis) ZAddGT(key string, member string, score float64) int64 {
 	var v int64
 	_ = n.exec(func(tx *Tx) error {
-		meta := tx.writeKey(key, n.newZSet)
+		meta := tx.writeKey(key, nil)
+		if !meta.isOk() {
+			// LT / GT only ever update existing members: nothing to do, and no empty key is left behind
+			return nil
+		}
 		if meta.value.(*zset.SortedSet).ZAddGT(member, score) {
 			n.signalModifiedKey(key, meta)
 			n.notify(func() []patch.Op {
